@@ -455,7 +455,7 @@ def t_cpv_ops(ex):
 def tasks():
     return [
         Task("C01._VersionMatch.match", t_versionmatch, [("src/pkgcore/ebuild/restricts.py", "_VersionMatch.match")]),
-        Task("C01.CPV", t_cpv_ops, [(FILE, f"CPV.{n}") for n in ("__lt__", "__le__", "__gt__", "__ge__", "__eq__", "__ne__")]),
+        Task("C01.CPV", t_cpv_ops, [(FILE, f"CPV.{n}") for n in ("__lt__", "__le__", "__gt__", "__ge__", "__eq__", "__ne__")], enumerate=enum_cpv_objects),
         *[Task(f"C01.ver_cmp[{''.join(map(str, pre))}]", t_ver_cmp, [(FILE, "ver_cmp")], max_paths=4000, preset=pre, group="C01.ver_cmp",
                enumerate=enum_ver_cmp if not any(pre) else None)
           for pre in __import__("itertools").product((0, 1), repeat=6)],
@@ -553,6 +553,34 @@ def enum_ver_cmp(seed):
                               "detail": f"ver_cmp({v1!r}, {r1!r}, {v2!r}, {r2!r}) = {got}; PMS comparison gives {want}"})
     return {"name": "C01.ver_cmp.bounded_enumeration", "bound": f"all pairs of {len(vers)} versions (<=2 components from 8 digit strings incl. leading zeros, 3 letters, 9 suffix stacks) x 4 revision pairs",
             "cases": cases, "failures": fails}
+
+
+def enum_cpv_objects(seed):
+    """the operators of real VersionedCPV objects built from text (so the constructor's own canonicalisation is part of what is compared) against
+    the PMS comparison of the version and revision that were written"""
+    import itertools
+    import random
+    from pkgcore.ebuild.cpv import VersionedCPV
+    rnd = random.Random(seed + 101)
+    vers = ["1", "1.0", "1.00", "1.01", "1.1", "1.10", "1.010", "1a", "1_alpha", "1_alpha0", "1_p", "1_p0", "10", "01"]
+    revs = ["", "-r0", "-r00", "-r1", "-r01", "-r010", "-r0100", "-r10", "-r100", "-r2", "-r20"]
+    texts = [v + r for v in vers for r in revs]
+    texts = rnd.sample(texts, 70)
+    objs = [(t, VersionedCPV("dev-util/zlib-" + t)) for t in texts]
+    cases, fails = 0, []
+    for (ta, a), (tb, b) in itertools.product(objs, repeat=2):
+        cases += 1
+        va, _, ra = ta.partition("-r")
+        vb, _, rb = tb.partition("-r")
+        want = pms_cmp(va, int(ra or 0), vb, int(rb or 0))
+        got = {"<": a < b, "<=": a <= b, "==": a == b, "!=": a != b, ">": a > b, ">=": a >= b}
+        exp = {"<": want < 0, "<=": want <= 0, "==": want == 0, "!=": want != 0, ">": want > 0, ">=": want >= 0}
+        if got != exp and len(fails) < 4:
+            bad = [k for k in got if got[k] != exp[k]]
+            fails.append({"model": {"a": "dev-util/zlib-" + ta, "b": "dev-util/zlib-" + tb},
+                          "detail": f"VersionedCPV(dev-util/zlib-{ta}) vs VersionedCPV(dev-util/zlib-{tb}): PMS comparison gives {want}, operators {bad} answer {[got[k] for k in bad]}"})
+    return {"name": "C01.CPV.objects.bounded_enumeration", "bound": f"all ordered pairs of 70 of {len(vers) * len(revs)} version-revision texts ({len(vers)} versions x {len(revs)} revision spellings with zeros on either side) "
+            "as real VersionedCPV objects, six operators each", "cases": cases, "failures": fails}
 
 
 REPLAY = {"C01.ver_cmp": replay_ver_cmp}
